@@ -93,8 +93,8 @@ def print_lines(n, out, multiline=False):
         n["_l1"] = len(out)
         return
     if n.get("text") is not None and not n["children"]:
-        out.append(last + ">" + n["text"] + "</" + n["tag"] + ">")
-        n["_l1"] = len(out)
+        n["_l1"] = len(out) + 1
+        out.extend((last + ">" + n["text"] + "</" + n["tag"] + ">").split("\n"))     # the content may span lines
         return
     out.append(last + ">")
     n["_l1"] = len(out)
